@@ -272,6 +272,16 @@ pub fn gen_app_unit(
         let (hdr, data) = gen_response_plan(rng, uniq, o.max_data);
         plan.hdr = hdr;
         plan.data = data;
+        // how the handler treats finish(): once at the end (usual), after every datum returning
+        // at the first error, or after every datum carrying on regardless
+        match rng.below(8) {
+            0 => plan.finish_each = true,
+            1 => {
+                plan.finish_each = true;
+                plan.finish_ignore = true;
+            }
+            _ => {}
+        }
     }
     Unit {
         lead: B::new(),
@@ -504,6 +514,7 @@ pub const HEADER_FAULTS: &[&str] = &[
     "colon_before_common",
     "trailing_colon",
     "mnemonic_too_long",
+    "expression_glued_to_header",
 ];
 
 /// Turn the (well-formed) header of `u` into a catalogued ill-formed one.
@@ -642,6 +653,13 @@ pub fn apply_header_fault(rng: &mut Rng, u: &mut Unit, kind: &str) -> bool {
             let mut v = hdr.clone();
             v.extend_from_slice(b"\"x\"");
             v.extend_from_slice(q.as_bytes());
+            v
+        }
+        "expression_glued_to_header" => {
+            // no header separator: the parenthesis follows the last mnemonic (or the `?`) directly
+            let mut v = hdr.clone();
+            v.extend_from_slice(q.as_bytes());
+            v.extend_from_slice(pickb(rng, &[&b"(1)"[..], &b"(@1,2)"[..], &b"(1,2:3)"[..], &b"()"[..], &b"(@1),5"[..]]));
             v
         }
         "hash_in_header" => {
